@@ -85,19 +85,41 @@ type fnCtx struct {
 
 // G is the generator state for one package.
 type G struct {
-	t         *rapid.T
-	cfg       Config
-	prog      *Program
-	consts    []*Var
-	helpers   []*FuncSig
-	methods   map[*StructDef][]*FuncSig
-	fn        *fnCtx
-	ctr       int
-	inKey     bool
-	inIdx     bool
-	bigOK     bool
-	generics  bool
-	funcField bool
+	t          *rapid.T
+	cfg        Config
+	prog       *Program
+	consts     []*Var
+	helpers    []*FuncSig
+	methods    map[*StructDef][]*FuncSig
+	fn         *fnCtx
+	ctr        int
+	inKey      bool
+	inIdx      bool
+	bigOK      bool
+	mapAliases map[string]string
+	generics   bool
+	funcField  bool
+}
+
+// mapTypeName returns the spelling of a map type for make(…): usually the type itself, sometimes
+// a package-level alias of it (type MA0 = map[K]V), which must allocate the same map (seeded
+// change C01-8).
+func (g *G) mapTypeName(t *Ty) string {
+	if !g.chance("mapalias", 30) {
+		return t.Go()
+	}
+	if g.mapAliases == nil {
+		g.mapAliases = map[string]string{}
+	}
+	key := t.Go()
+	if n, ok := g.mapAliases[key]; ok {
+		return n
+	}
+	n := fmt.Sprintf("MA%d", len(g.mapAliases))
+	g.mapAliases[key] = n
+	g.prog.Consts = append(g.prog.Consts, "type "+n+" = "+key)
+	g.label("map-type-alias")
+	return n
 }
 
 // Uniform draws an index in [0, n) uniformly. rapid.IntRange and
@@ -160,7 +182,7 @@ func Generate(t *rapid.T, cfg Config) *Program {
 	}
 	if g.chance("funcfield", 35) {
 		g.funcField = true
-		g.prog.Consts = append(g.prog.Consts, "type Fh struct {\n\tf func(uint64) uint64\n\tk uint64\n}\n\nfunc fhInc(x uint64) uint64 {\n\treturn x + 1\n}")
+		g.prog.Consts = append(g.prog.Consts, "type Fh struct {\n\tf func(uint64) uint64\n\tk uint64\n}\n\nfunc fhInc(x uint64) uint64 {\n\treturn x + 1\n}\n\n// fhApply has a function-typed parameter and fhPick a function-typed result.\nfunc fhApply(f func(uint64) uint64, x uint64) uint64 {\n\treturn f(x) + 1\n}\n\nfunc fhPick(c bool, f func(uint64) uint64) func(uint64) uint64 {\n\tif c {\n\t\treturn f\n\t}\n\treturn fhInc\n}")
 		g.label("func-field-struct")
 	}
 	ns := g.pick("nstructs", cfg.Structs+1)
@@ -502,7 +524,7 @@ func (g *G) prologue(sc *scope) []string {
 			g.declare(sc, &Var{Name: name, T: t, Mutable: true, MinLen: ln})
 		case 8:
 			t := MapOf(TU64, g.intTy("promap"))
-			out = append(out, fmt.Sprintf("%s := make(%s)", name, t.Go()))
+			out = append(out, fmt.Sprintf("%s := make(%s)", name, g.mapTypeName(t)))
 			g.declare(sc, &Var{Name: name, T: t, NonNil: true})
 		case 9, 10:
 			if len(g.prog.Structs) > 0 {
@@ -728,6 +750,36 @@ func (g *G) nonConst(sc *scope, t *Ty, depth int) string {
 			}
 		}
 	}
+	if t.K == KU64 && depth >= 0 && !g.inKey && g.funcField {
+		// function values as arguments and results: a named function, the field of a holder, or
+		// a pure closure variable of the same signature
+		fvals := []string{"fhInc"}
+		for _, v := range g.varsOf(sc, func(v *Var) bool { return v.FuncHolder }) {
+			fvals = append(fvals, v.Name+".f")
+		}
+		for _, v := range g.varsOf(sc, func(v *Var) bool {
+			return v.Closure != nil && v.Closure.Pure && len(v.Closure.Params) == 1 && v.Closure.Params[0].T.K == KU64 && len(v.Closure.Results) == 1 && v.Closure.Results[0].K == KU64
+		}) {
+			fvals = append(fvals, v.Name)
+		}
+		alts = append(alts, func() string {
+			g.label("func-typed-argument")
+			fv := fvals[g.pick("fval", len(fvals))]
+			for _, v := range sc.all() {
+				if v.Name == fv || v.Name+".f" == fv {
+					v.Used = true
+				}
+			}
+			g.inKey = true
+			a := g.expr(sc, TU64, 0)
+			g.inKey = false
+			if g.chance("fhpick", 35) {
+				g.label("func-typed-result")
+				return "fhApply(fhPick(" + g.boolExpr(sc, 0) + ", " + fv + "), " + a + ")"
+			}
+			return "fhApply(" + fv + ", " + a + ")"
+		})
+	}
 	if t.K == KU64 && depth >= 0 && !g.inKey {
 		for _, v := range g.varsOf(sc, func(v *Var) bool { return v.FuncHolder }) {
 			v := v
@@ -801,7 +853,7 @@ func (g *G) exprTyped(sc *scope, t *Ty, depth int, typed bool) string {
 			}
 		}
 		g.label("make-map")
-		return "make(" + t.Go() + ")"
+		return "make(" + g.mapTypeName(t) + ")"
 	}
 	panic("expr")
 }
